@@ -12,69 +12,96 @@ package cl
 // mathematical value of the expression that computed it (no silent
 // two's-complement wrap-around).
 
+// C05, family O: slip numbers that are pointers to math/big values are
+// mutable Go objects. No function of this package may make a number that
+// existed when it was entered (an operand, or anything reachable from one) the
+// target of a mutating math/big method.
+//@ every-function cl operands-kept
+
 //@ func cl.addNumbers
 //@   property C05
 //@   exact
+//@   operands-kept
 //@ func cl.(*Subtract).Call
 //@   property C05
 //@   exact
+//@   operands-kept
 //@ func cl.(*Multiply).Call
 //@   property C05
 //@   exact
+//@   operands-kept
 //@ func cl.(*Divide).Call
 //@   property C05
 //@   exact
+//@   operands-kept
 //@ func cl.floor
 //@   property C05
 //@   exact
+//@   operands-kept
 //@ func cl.ceiling
 //@   property C05
 //@   exact
+//@   operands-kept
 //@ func cl.truncate
 //@   property C05
 //@   exact
+//@   operands-kept
 //@ func cl.round
 //@   property C05
 //@   exact
+//@   operands-kept
 //@ func cl.(*Mod).Call
 //@   property C05
 //@   exact
+//@   operands-kept
 //@ func cl.(*Rem).Call
 //@   property C05
 //@   exact
+//@   operands-kept
 //@ func cl.(*Abs).Call
 //@   property C05
 //@   exact
+//@   operands-kept
 //@ func cl.(*Oneplus).Call
 //@   property C05
 //@   exact
+//@   operands-kept
 //@ func cl.(*Oneminus).Call
 //@   property C05
 //@   exact
+//@   operands-kept
 //@ func cl.(*Incf).Call
 //@   property C05
 //@   exact
+//@   operands-kept
 //@ func cl.(*Decf).Call
 //@   property C05
 //@   exact
+//@   operands-kept
 //@ func cl.(*Gcd).Call
 //@   property C05
 //@   exact
+//@   operands-kept
 //@ func cl.gcd
 //@   property C05
 //@   exact
+//@   operands-kept
 //@ func cl.(*Lcm).Call
 //@   property C05
 //@   exact
+//@   operands-kept
 //@ func cl.(*Ash).Call
 //@   property C05
 //@   exact
+//@   operands-kept
 //@ func cl.(*Isqrt).Call
 //@   property C05
 //@   exact
+//@   operands-kept
 //@ func cl.(*Expt).Call
 //@   property C05
 //@   exact
+//@   operands-kept
 
 // ---------------------------------------------------------------------------
 // C01 / C07, family T: ghost evaluation trace ($n events; $ek kind, $eslot slot
